@@ -53,6 +53,10 @@ def ctype_text(t):
     if k in ("seqof", "setof"):
         kw = "SEQUENCE" if k == "seqof" else "SET"
         c = " (SIZE(%s))" % parts_text(t["parts"]) if t["parts"] else ""
+        if t.get("via"):
+            # written as a reference to the named list type `via ::= SEQUENCE OF el` that carries the SIZE at the point of
+            # use: the same type by X.680 (same tag, same constraints), but asn1c builds the checker from a reference
+            return pre + t["via"] + c
         return pre + "%s%s OF %s" % (kw, c, ctype_text(t["el"]))
     if k in ("seq", "choice"):
         kw = "SEQUENCE" if k == "seq" else "CHOICE"
@@ -61,8 +65,26 @@ def ctype_text(t):
     raise ValueError(k)
 
 
+def via_defs(t, out):
+    """the named list types the `via` spelling of an OF refers to: {name: text of its definition}"""
+    if t["k"] in ("seqof", "setof"):
+        if t.get("via"):
+            text = "%s OF %s" % ("SEQUENCE" if t["k"] == "seqof" else "SET", ctype_text(t["el"]))
+            assert out.get(t["via"], text) == text, "two different list types named " + t["via"]
+            out[t["via"]] = text
+        via_defs(t["el"], out)
+    for _n, mt, _o in t.get("ms", []):
+        via_defs(mt, out)
+    return out
+
+
 def cmodule_text(name, default, defs):
     lines = ["%s DEFINITIONS %s TAGS ::= BEGIN" % (name, default)]
+    vias = {}
+    for n, t in defs:
+        via_defs(t, vias)
+    for n in sorted(vias):
+        lines.append("  %s ::= %s" % (n, vias[n]))
     for n, t in defs:
         lines.append("  %s ::= %s" % (n, ctype_text(t)))
     lines.append("END")
@@ -165,9 +187,16 @@ def boundary_module(name="MC0"):
     defs.append(("C1", {"k": "choice", "ms": [("a", SO([(2, 3)], B(), tag=("CONTEXT", 0, "IMPLICIT")), False),
                                               ("b", R("Q1", tag=("CONTEXT", 1, "IMPLICIT")), False), ("c", I([(1, 10)]), False)]}))
     defs.append(("C2", R("C1")))
+    # SIZE added to a reference to a named list type, at type and at member level (the generated checker of a
+    # reference has to hand over to SEQUENCE_OF_constraint / SET_OF_constraint after its own SIZE test)
+    defs.append(("V1", SO([(2, 3)], I([(1, 10)]), via="VLa")))
+    defs.append(("V2", {"k": "seq", "ms": [("a", SO([(1, 3)], I([(1, 10)]), via="VLa"), False), ("b", SO([], I([(1, 10)]), via="VLa"), False),
+                                           ("c", SO([(1, 2), (4, 4)], O([(1, 2)]), "setof", via="VLb"), False)]}))
+    defs.append(("V3", SO([(1, 2), (4, 4)], O([(1, 2)]), "setof", via="VLb")))
+    defs.append(("V4", R("V1")))
     env = dict(defs)
     trees = {n: resolve(t, "IMPLICIT", env) for n, t in defs}
-    return {"name": name, "default": "IMPLICIT", "defs": defs, "trees": trees, "text": cmodule_text(name, "IMPLICIT", defs)}
+    return {"name": name, "default": "IMPLICIT", "defs": defs, "trees": trees, "text": cmodule_text(name, "IMPLICIT", defs), "names": ["VLa", "VLb"]}
 
 
 # ---------------------------------------------------------------- systematic boundary modules
@@ -368,16 +397,35 @@ def boundary_modules(rng, tier, chunk=12):
     sub = [c for c in short if share()]
     for i, ch in enumerate(_chunks(sub, chunk)):
         defs.append(("ZN%d" % i, DEEP("ZN%d" % i, [mk_oct(ps) for _l, ps in ch])))
+    # SIZE written at a REFERENCE to a named list type (`m VLq0 (SIZE(..))`, `ZW ::= VLq0 (SIZE(..))`): asn1c generates the
+    # checker from a reference; after its own SIZE test it must hand over to the element walker.  Elements carry
+    # constraints of their own (value, SIZE), so that a value with a good count and ONE bad element exists.
+    ELS = [mk_int([(0, 7)]), mk_oct([(1, 2)]), mk_int([(None, -1), (5, None)])]
+    reach = [c for c in qshort if minlen(c[1], 4) is not None]
+    vcons = reach if tier != "quick" else [c for i, c in enumerate(reach) if i % 3 == rng.below(3) or i < 6]
+
+    def VIA(j, ps):
+        kind = "seqof" if j % 2 else "setof"
+        return dict(OF(ELS[j % 3], kind, ps), via="VL%s%d" % ("q" if kind == "seqof" else "t", j % 3))
+    for i, ch in enumerate(_chunks(vcons, 8)):
+        defs.append(("ZV%d" % i, SEQ("ZV%d" % i, [VIA(j, ps) for j, (_l, ps) in enumerate(ch)])))
+    for j, (_l, ps) in enumerate(vcons[::3]):
+        defs.append(("ZW%d" % j, VIA(j, ps)))
+        if j % 4 == 0:
+            defs.append(("ZX%d" % j, {"k": "ref", "ref": "ZW%d" % j}))
+    for i, ch in enumerate(_chunks(vcons[1::4], 6)):
+        defs.append(("ZU%d" % i, DEEP("ZU%d" % i, [VIA(j, ps) for j, (_l, ps) in enumerate(ch)])))
     mods.append(("MBS", defs))
     out = []
     for name, defs in mods:
         env = dict(defs)
         trees = {n: resolve(t, "AUTOMATIC", env) for n, t in defs}
-        out.append({"name": name, "default": "AUTOMATIC", "defs": defs, "trees": trees, "text": cmodule_text(name, "AUTOMATIC", defs), "boundary": True})
+        out.append({"name": name, "default": "AUTOMATIC", "defs": defs, "trees": trees, "text": cmodule_text(name, "AUTOMATIC", defs), "boundary": True,
+                    "names": ["VL%s%d" % (k, j) for k in "qt" for j in range(3)]})
     return out
 
 
-def lite_module(m, prefixes=("BS", "ZS", "ZQ")):
+def lite_module(m, prefixes=("BS", "ZS", "ZQ", "ZV")):
     """the SEQUENCE-of-members part of a systematic module (every constraint once), for the secondary flag sets"""
     defs = [(n, t) for n, t in m["defs"] if n[:2] in prefixes]
     return dict(m, defs=defs, trees={n: m["trees"][n] for n, _t in defs}, text=cmodule_text(m["name"], m["default"], defs))
@@ -488,7 +536,7 @@ def cty_str(t, env):
     k = t["k"]
     if k == "ref":
         tgt = env[t["ref"]]
-        return "R%d%s" % (1 if tgt["k"] == "ref" else 0, cty_str(base_of(tgt, env), env))
+        return "R%d%s" % (1 if (tgt["k"] == "ref" or tgt.get("via")) else 0, cty_str(base_of(tgt, env), env))
     if k == "bool":
         return "b"
     if k == "null":
@@ -512,6 +560,8 @@ def def_cty(tn, env):
     t = env[tn]
     if t["k"] == "ref":
         return "R1" + cty_str(base_of(t, env), env)
+    if t.get("via"):
+        return "R1" + cty_str(t, env)              # `T ::= ListType (SIZE(..))`: a reference definition with its own constraint
     return cty_str(t, env)
 
 
@@ -529,7 +579,7 @@ def violated(t, v, env, slot=False, path=(), out=None):
     ex = []
     if k == "ref":
         tgt = env[t["ref"]]
-        return violated(base_of(tgt, env), v, env, tgt["k"] == "ref", path, out)
+        return violated(base_of(tgt, env), v, env, tgt["k"] == "ref" or bool(tgt.get("via")), path, out)
     if k == "int":
         ps = t["parts"]
         if ps and not in_parts(ps, v):
